@@ -88,7 +88,12 @@ func (self ValueList) Fields() (map[string]*Value, *VmInterrupt) {
 		}),
 		"concat": NewValueBuiltinFunction(func(executor Executor, cancelCtx *context.Context, span errors.Span, args ...Value) (*Value, *VmInterrupt) {
 			other := args[0].(ValueList)
-			*self.Values = append(*self.Values, *other.Values...)
+			// The elements are copied into fresh cells: if both lists shared them, an assignment to an
+			// element of one list (`b[0] = 7`) would also change the other.
+			for _, item := range *other.Values {
+				copied := *item
+				*self.Values = append(*self.Values, &copied)
+			}
 			return NewValueNull(), nil
 		}),
 		"join": NewValueBuiltinFunction(func(executor Executor, cancelCtx *context.Context, span errors.Span, args ...Value) (*Value, *VmInterrupt) {
